@@ -125,4 +125,55 @@ pub fn run(rec: &mut Recorder, w: &mut World, tier: &str, seed: u64) {
         }
         rec.count_n("histories:exhaustive", n_ex as u64);
     } }
+    run_mixed(rec, w, tier, &mut rng);
+}
+
+/// mixed arities: user roles carry a domain (`g = _, _, _`), resource roles do not (`g2 = _, _`), and the SAME
+/// names occur under both.  The two relations live in different graphs of the shared manager (named domains vs the
+/// domain-less one), so here independence must hold without exception.
+fn run_mixed(rec: &mut Recorder, w: &mut World, tier: &str, rng: &mut Rng) {
+    let r = |i| Ex::R(i); let p = |i| Ex::P(i);
+    let rt = sv(&["sub", "dom", "obj", "act"]);
+    let mx = and(and(and(Ex::G3("g".into(), b(r(0)), b(p(0)), b(r(1))), Ex::G2("g2".into(), b(r(2)), b(p(2)))), eq(r(1), p(1))), eq(r(3), p(3)));
+    let m = ModelDef { r: vec![("r".into(), rt.clone())], p: vec![("p".into(), rt.clone())], g: vec![("g".into(), 3), ("g2".into(), 2)],
+        e: vec![("e".into(), E_ALLOW.into())], m: vec![("m".into(), mx.sexpr(), mx.text("r", &rt, "p", &rt))], tbl: vec![] };
+    let names = ["a", "b", "c", "d"];
+    let doms = ["t1", "t2"];
+    let n_hist = (if tier == "thorough" { 1500 } else { 150 }) * rec.budget as usize;
+    for hi in 0..n_hist {
+        rec.begin();
+        let mut lines: Vec<Vec<String>> = vec![];
+        let mut pr: Vec<Vec<String>> = vec![];
+        for (s, o) in [("c", "c"), ("d", "d"), ("a", "b")] { let rule = sv(&[s, "t1", o, "read"]); let mut l = sv(&["p", "p"]); l.extend(rule.clone()); lines.push(l); pr.push(rule); }
+        new_enforcer(rec, w, &m, "memory", &lines, "", false);
+        let mut descr = vec![];
+        let (mut g1, mut g2) = (RefLinks::default(), RefLinks::default());
+        for _ in 0..2 + rng.below(if tier == "thorough" { 24 } else { 12 }) {
+            let first = rng.chance(1, 2);
+            let mut rule = sv(&[*rng.pick(&names), *rng.pick(&names)]);
+            if first { rule.push(rng.pick(&doms).to_string()); }
+            let def = if first { "g" } else { "g2" };
+            let op = match rng.below(8) { 0..=4 => MOp::Add("g".into(), def.into(), rule), 5 | 6 => MOp::Rm("g".into(), def.into(), rule), _ => MOp::RmF("g".into(), def.into(), rng.below(2), vec![rule[0].clone()]) };
+            rec.exec(w, &op.line());
+            descr.push(op.line().replace('\t', " "));
+            if rng.chance(1, 10) { descr.push(format!("build_role_links -> {}", rec.exec(w, "e.build"))); }
+        }
+        let pol = rec.exec(w, "e.pol");
+        for l in dec_lists(pol.split(' ').nth(1).unwrap_or("-")) {
+            if l[1] == "g" { g1.add(&l[2], &l[3], &Some(l[4].clone())) } else { g2.add(&l[2], &l[3], &None) }
+        }
+        let mut reqs: Vec<Vec<String>> = vec![];
+        for s in names { for o in names { for t in doms { reqs.push(sv(&[s, t, o, "read"])); } } }
+        let dec = rec.exec(w, &format!("e.enfs\t{}", reqs_field(&reqs)));
+        let want: String = reqs.iter().map(|rq| if pr.iter().any(|rule| { let d = Some(rq[1].clone());
+            g1.dist(&rq[0], &rule[0], &d).is_some() && g2.dist(&rq[2], &rule[2], &None).is_some() && rq[1] == rule[1] && rq[3] == rule[3] }) { 't' } else { 'f' }).collect();
+        if dec != want {
+            let i = dec.bytes().zip(want.bytes()).position(|(a, c)| a != c).unwrap_or(0);
+            rec.fail("definitions-interfere", format!("[mixed arities g=_,_,_ g2=_,_ shared names] after {}: request {:?} decided {} but with one relation per definition it is {}", descr.join(" ; "), reqs[i], &dec[i..i + 1], &want[i..i + 1]));
+        }
+        rec.count("config:mixed-arity");
+        rec.count_n("decisions:granted", dec.bytes().filter(|&c| c == b't').count() as u64);
+        rec.nontrivial_case(&format!("mixed|{}", descr.join("|")));
+        if hi == 0 { rec.sample(format!("mixed {}", descr.join(" ; "))); }
+    }
 }
